@@ -195,6 +195,40 @@ Example c19_startup_warning_example :
   = [lit "invalid RIP_OPENRESPONSES_TOOL_CHOICE=""bogus"": unsupported value (expected auto|none|required|function:<name>|json:<tool_choice_json>); defaulting to auto"].
 Proof. exact startup_warning_example. Qed.
 
+(* The JSON stage in front of the typed configuration.  The code merges the configuration FILES as JSON values (two objects
+   merge key by key, anything else is replaced by the overlay) and types the merged value at the end; a `doc` is a file as
+   far as the secret-bearing positions go, with their SHAPES (a scalar where a map is expected, a number where a string is
+   expected, arrays, objects).  `world_of` = merge the files, decide whether the result fits the schema (`doc_error`: the
+   scalar serde would quote), take the typed view.  Erasing every scalar at a secret-bearing position of every file,
+   whatever its shape, commutes with all of that - so every theorem about typed worlds holds for worlds given by their
+   possibly mis-shaped files: stored frames, the doctor report incl. per-source error texts, start-up output. *)
+Theorem c19_world_of_files_commutes_with_erasure : forall j : jworld, world_of (low_jworld j) = low_world (world_of j).
+Proof. exact world_of_low. Qed.
+Print Assumptions c19_world_of_files_commutes_with_erasure.
+
+Theorem c19_files_noninterference : forall (fuel : nat) (sc : script) (thread : bool) (j1 j2 : jworld)
+                                           (prompt : str) (initial : list item),
+  low_jworld j1 = low_jworld j2 ->
+  persisted (run fuel sc thread (world_of j1) prompt initial) = persisted (run fuel sc thread (world_of j2) prompt initial)
+  /\ doctor_report (world_of j1) = doctor_report (world_of j2)
+  /\ startup_warnings (jw_env j1) = startup_warnings (jw_env j2).
+Proof. exact files_noninterference. Qed.
+Print Assumptions c19_files_noninterference.
+
+(* a curl-style header string in a project file replaces the header map of the global file and makes the WHOLE configuration
+   misfit (serde would quote the secret; the doctor shows the env-only resolution and no error text); a still higher file
+   with a header map repairs it - and the global file's header is gone with the replaced string *)
+Example c19_files_misfit_example :
+  w_misfit (world_of (ex_jworld [ex_global; ex_bad (lit "tok-AAAA")])) = Some (lit "X-Api-Key: tok-AAAA")
+  /\ low_jworld (ex_jworld [ex_global; ex_bad (lit "tok-AAAA")]) = low_jworld (ex_jworld [ex_global; ex_bad (lit "tok-BBBB")])
+  /\ doctor_report (world_of (ex_jworld [ex_global; ex_bad (lit "tok-AAAA")]))
+     = ([], Some (mkDoctor None None (lit "http://127.0.0.1:9/v1/responses") None false None [] false false None)).
+Proof. exact ex_files_misfit. Qed.
+Example c19_files_repaired_example :
+  w_misfit (world_of (ex_jworld [ex_global; ex_bad (lit "tok-AAAA"); ex_repair])) = None
+  /\ option_map d_header_names (doctor (world_of (ex_jworld [ex_global; ex_bad (lit "tok-AAAA"); ex_repair]))) = Some [lit "X-Api-Key"].
+Proof. exact ex_files_repaired. Qed.
+
 (* rip-cli (`rip run --provider P [--model ..] [--stateless-history] ..`, main.rs apply_openresponses_env): the CLI copies the
    provider's key variable into RIP_OPENRESPONSES_API_KEY of its own environment, which the authority it spawns inherits,
    and sends the public settings as per-request overrides.  In two worlds that differ only in secret values it bails out
